@@ -384,7 +384,8 @@ def _can_paste(
     (sx, _, tx, _, sy, ty, *_) = A_  # tx, ty are in dst pixel space
 
     # Expect identity for scale change
-    if any(abs(abs(s) - 1) > stol for s in (sx, sy)):  # not equal scaling across axis?
+    # ``>=`` to agree with ``snap_affine`` that follows: it only snaps when strictly within ``stol``
+    if any(abs(abs(s) - 1) >= stol for s in (sx, sy)):  # not equal scaling across axis?
         return False, "sx!=sy, probably"
 
     # Check if sub-pixel translation within bounds
